@@ -330,9 +330,11 @@ fn prop(c: &Case, info: &mut CaseInfo) -> Verdict {
                     for j in 0..sc.cas.len() {
                         match world.read_stored(j) {
                             Ok(Some(view)) => {
-                                let cand = [state.stored.get(&j).copied(), Some(step.publish[j].min(sc.cas[j].versions.len() - 1))];
+                                // the previous version, what the local copy now holds (an unreachable
+                                // module leaves an older copy), or any other complete version
+                                let cand: Vec<usize> = state.stored.get(&j).copied().into_iter().chain(state.local.get(&j).copied()).chain(0..sc.cas[j].versions.len()).collect();
                                 let mut found = None;
-                                for v in cand.into_iter().flatten() {
+                                for v in cand.into_iter() {
                                     if world.expected_stored(j, v) == view {
                                         found = Some(v);
                                         break;
@@ -343,7 +345,7 @@ fn prop(c: &Case, info: &mut CaseInfo) -> Verdict {
                                         state.stored.insert(j, v);
                                     }
                                     None => {
-                                        verdict = Verdict::fail("C40/failed-run-left-unknown-stored-point", format!("step {} ({:?}): stored point of ca{} is neither the previous nor the published complete version", n, mode, j));
+                                        verdict = Verdict::fail("C40/failed-run-left-unknown-stored-point", format!("step {} ({:?}): after the failed run the stored point of ca{} equals no complete version", n, mode, j));
                                         break 'steps;
                                     }
                                 }
